@@ -7,7 +7,7 @@
     universally quantified functions; their encoders only have to satisfy the round-trip hypotheses
     written in each statement (instantiated at the end of the file). *)
 From Coq Require Import List ZArith String Lia.
-From Thunder Require Import Lib.Json Args.Model Args.Spec Args.Codec Args.Proofs Args.ProofsReject Args.ProofsInst Args.ProofsSubst Args.ProofsTotal Args.ProofsDoc Args.ProofsPaginated Gen.ArgParsers Args.Table.
+From Thunder Require Import Lib.Json Args.Model Args.Spec Args.Codec Args.Proofs Args.ProofsReject Args.ProofsInst Args.ProofsSubst Args.ProofsTotal Args.ProofsDoc Args.ProofsPaginated Gen.ArgParsers Args.Table Args.ModelBuilder Args.ProofsBuilder Args.ProofsRange.
 Import ListNotations.
 Local Open Scope Z_scope.
 
@@ -268,6 +268,121 @@ Theorem scalar_table_covered :
 Proof. exact Table.scalar_table_covered. Qed.
 Print Assumptions scalar_table_covered.
 
+(** * "Integers within the float64-exact range": the exact boundary *)
+
+(** Both transports hand the argument parser the float64 nearest to the integer written ([wire_num]:
+    valueToJson converts the int64 it read; encoding/json decodes number tokens to float64) ... *)
+Theorem integer_literal_is_nearest_float64 :
+  forall vars z, int64_ok z = true -> vtj vars (LInt z) = Ok (wire_num z).
+Proof. exact ProofsRange.vtj_int. Qed.
+Print Assumptions integer_literal_is_nearest_float64.
+
+(** ... and an integer inside the range of its kind (and of int64: there is no larger integer token, and
+    the uint64 entry converts through int64) arrives unchanged *exactly when* it is a float64 - at most 53
+    significant bits ([f64_exact]); every other integer arrives as a different number. *)
+Theorem int_arrives_iff_float64_exact :
+  forall b64 tdec xdec k z,
+    int_lo k <= z <= int_hi k -> - 2 ^ 63 <= z < 2 ^ 63 ->
+    (parse b64 tdec xdec (TInt k) (wire_num z) = Ok (GInt z) <-> f64_exact z).
+Proof. exact ProofsRange.int_arrives_iff_float64_exact. Qed.
+Print Assumptions int_arrives_iff_float64_exact.
+
+(** 2^53 is the bound of the property's "float64-exact range": every |z| <= 2^53 is a float64, and the
+    next integer on either side is not (so it is refuted there: 2^53 + 1 arrives as 2^53, example below). *)
+Theorem float64_exact_range_is_tight :
+  (forall z, - 2 ^ 53 <= z <= 2 ^ 53 -> f64_exact z) /\
+  ~ f64_exact (2 ^ 53 + 1) /\ ~ f64_exact (- (2 ^ 53 + 1)).
+Proof. exact ProofsRange.float64_exact_range_tight. Qed.
+Print Assumptions float64_exact_range_is_tight.
+
+Theorem beyond_the_float64_exact_range_refuted :
+  exists k z, int_lo k <= z <= int_hi k /\ int64_ok z = true /\
+    exists j, vtj [] (LInt z) = Ok j /\
+              parse b64_dec time_dec text_dec (TInt k) j = Ok (GInt (z - 1)).
+Proof.
+  exists I64, (2 ^ 53 + 1). split; [vm_compute; split; discriminate|]. split; [reflexivity|].
+  exists (wire_num (2 ^ 53 + 1)). split; vm_compute; reflexivity.
+Qed.
+Print Assumptions beyond_the_float64_exact_range_refuted.
+
+(** * "Every argument type the builder supports": the builder itself
+
+    [gty] is a Go type as the builder sees it through reflect (kind, name, fields with their tag text, and the
+    three facts it asks of every type: registered enum, scalarArgParsers entry, TextUnmarshaler); [build] is
+    makeArgParser, [build_top] makeStructParser on the argument struct of a field func (Args/ModelBuilder.v).
+    The builder supports exactly the types the rules [Builds] derive: in this order a registered enum, an
+    entry of the scalar table, a TextUnmarshaler; else a *named* struct whose fields build (embedded fields
+    refused, unexported and "-" fields skipped, options only "key" and "optional" and each once, names
+    unique, `optional` wraps the field's parser), or a slice of a type that builds; a pointer to any of these
+    but not to a pointer. *)
+Theorem builder_supports_exactly :
+  forall g t, build g = Some t <-> Builds g t.
+Proof. exact ProofsBuilder.build_iff. Qed.
+Print Assumptions builder_supports_exactly.
+
+Theorem argument_struct_supported_exactly :
+  forall g t, build_top g = Some t <->
+    exists i name fs l, g = RStruct i name fs /\ t = TStruct l /\ BuildsFields fs [] l.
+Proof. exact ProofsBuilder.build_top_iff. Qed.
+Print Assumptions argument_struct_supported_exactly.
+
+(** What is refused, on the function: a pointer to a pointer; a kind without parser (map, chan, func,
+    interface, array, complex, uintptr) - also as the element of a slice or behind a pointer; an unnamed
+    nested struct; a struct with an embedded field or an unexpected tag option, wherever it stands in the
+    field list. *)
+Theorem unsupported_ingredients_refused :
+  (forall g, build (RPtr (RPtr g)) = None) /\
+  (forall i, classify i = None -> build (RLeaf i) = None) /\
+  (forall i g, classify i = None -> build g = None -> build (RSlice i g) = None) /\
+  (forall g, build_inner g = None -> build (RPtr g) = None) /\
+  (forall i fs, classify i = None -> build (RStruct i EmptyString fs) = None) /\
+  (forall inner m h r seen, fm_anonymous m = true -> struct_fields_with inner ((m, h) :: r) seen = None) /\
+  (forall inner m h r seen, field_info m = None -> struct_fields_with inner ((m, h) :: r) seen = None) /\
+  (forall inner fs1 fs2 seen, (forall seen', struct_fields_with inner fs2 seen' = None) ->
+                              struct_fields_with inner (fs1 ++ fs2) seen = None).
+Proof.
+  exact (conj pointer_to_pointer_refused (conj unsupported_kind_refused (conj refused_element_refuses_slice
+        (conj refused_pointee_refuses_pointer (conj unnamed_nested_struct_refused
+        (conj fields_refused_anonymous (conj fields_refused_tag fields_refused_later))))))).
+Qed.
+Print Assumptions unsupported_ingredients_refused.
+
+(** No input object the builder returns has two fields of one name ("duplicate field" is refused). *)
+Theorem built_field_names_unique :
+  forall inner fs seen l, struct_fields_with inner fs seen = Some l ->
+    NoDup (map fst l) /\ (forall n, In n (map fst l) -> Model.mem_str n seen = false).
+Proof. exact ProofsBuilder.fields_names. Qed.
+Print Assumptions built_field_names_unique.
+
+(** Every type the builder returns is well formed - the hypothesis [wf_ty] of the transport theorems is a
+    fact about the builder, given that the name maps of the registered enums are maps ([enums_ok]) ... *)
+Theorem built_types_are_well_formed :
+  forall g t, enums_ok g -> (build g = Some t \/ build_top g = Some t) -> wf_ty t.
+Proof.
+  exact (fun g t He H => match H with
+                         | or_introl H1 => built_types_wf g t He H1
+                         | or_intror H2 => built_top_wf g t He H2
+                         end).
+Qed.
+Print Assumptions built_types_are_well_formed.
+
+(** ... so both transports carry every value in range for every argument struct the builder accepts. *)
+Theorem transport_for_every_supported_argument_struct :
+  forall g t v, enums_ok g -> build_top g = Some t -> sendable time_ok (fun _ => True) t v ->
+    parse b64_dec time_dec text_dec t (json_of b64_enc time_enc text_enc t v) = Ok v /\
+    exists j, vtj [] (lit_of b64_enc time_enc text_enc "nul" t v) = Ok j /\
+              parse b64_dec time_dec text_dec t j = Ok v.
+Proof.
+  exact (fun g t v He Hb Hs => ProofsInst.concrete_transports t v (built_top_wf g t He Hb) Hs).
+Qed.
+Print Assumptions transport_for_every_supported_argument_struct.
+
+(** A field without argument struct (nilParseArguments) accepts no argument at all - not even a null one. *)
+Theorem field_without_arguments_accepts_none :
+  forall j, parse_noargs j = Ok tt <-> j = VNull \/ j = VObj [].
+Proof. exact ProofsBuilder.parse_noargs_iff. Qed.
+Print Assumptions field_without_arguments_accepts_none.
+
 (** * The hypotheses are satisfiable by the decoders the correspondence check runs *)
 Theorem base64_roundtrip : forall b, bytes_ok b -> b64_dec (b64_enc b) = Some b.
 Proof. exact ProofsInst.b64_roundtrip. Qed.
@@ -334,3 +449,44 @@ Example ex_reject :
         (VObj [("a"%string, VNum 1 0); ("d"%string, VObj [("n"%string, VStr "5"%string)]); ("e"%string, VStr ""%string);
                ("f"%string, VArr [])]) = Err EArgs.
 Proof. apply kind_mismatch_rejected. reflexivity. Qed.
+
+(** A Go argument struct as reflect shows it - an enum that is also a scalar alias (the enum wins), time.Time
+    (scalar entry wins over its UnmarshalText), a named struct with a skipped and a default-named field, a
+    `[]*T` - the type the builder makes of it, and a neighbour it refuses. *)
+Definition ex_color_info : tinfo :=
+  mk_tinfo (Some (GInt 0, [("RED"%string, GInt 1); ("GREEN"%string, GInt 2)])) (Some (ScInt I32)) false.
+Definition ex_scalar (s : sc) : gty := RLeaf (mk_tinfo None (Some s) false).
+Definition ex_gty : gty :=
+  RStruct no_info "" [
+    (mk_fmeta "A" false false "a", ex_scalar (ScInt I32));
+    (mk_fmeta "When" false false ",optional",
+       RStruct (mk_tinfo None (Some ScTime) true) "Time" [(mk_fmeta "wall" true false "", RLeaf no_info)]);
+    (mk_fmeta "Cs" false false "cs,key", RSlice no_info (RPtr (RLeaf ex_color_info)));
+    (mk_fmeta "In" false false "in",
+       RPtr (RStruct no_info "Inner" [(mk_fmeta "Skip" false false "-,whatever", RLeaf no_info);
+                                      (mk_fmeta "hidden" true false "", RLeaf no_info);
+                                      (mk_fmeta "N" false false "", ex_scalar (ScInt U8))]))]%string.
+
+Example ex_build :
+  enums_ok ex_gty /\
+  build_top ex_gty =
+  Some (TStruct [("a", TInt I32); ("when", TOpt TTime); ("cs", TList (TPtr ex_color));
+                 ("in", TPtr (TStruct [("n", TInt U8)]))])%string.
+Proof.
+  split; [|vm_compute; reflexivity].
+  cbn. repeat split; try exact I. repeat constructor; cbn; intuition discriminate.
+Qed.
+
+Example ex_build_refused :
+  build_top (RStruct no_info "" [(mk_fmeta "A" false false "a", ex_scalar ScBool);
+                                 (mk_fmeta "M" false false "m,optional", RSlice no_info (RPtr (RPtr (ex_scalar ScString))))]) = None /\
+  build_top (RStruct no_info "" [(mk_fmeta "A" false false "a,optional,optional", ex_scalar ScBool)]) = None /\
+  build_top (RStruct no_info "" [(mk_fmeta "A" false false "x", ex_scalar ScBool); (mk_fmeta "B" false false "x", ex_scalar ScBool)]) = None.
+Proof. vm_compute. repeat split; reflexivity. Qed.
+
+(** 2^53 + 1 written as a literal arrives as 2^53; 2^53 + 2 and -2^63 arrive unchanged. *)
+Example ex_range :
+  parse b64_dec time_dec text_dec (TInt I64) (wire_num (2 ^ 53 + 1)) = Ok (GInt (2 ^ 53)) /\
+  parse b64_dec time_dec text_dec (TInt I64) (wire_num (2 ^ 53 + 2)) = Ok (GInt (2 ^ 53 + 2)) /\
+  parse b64_dec time_dec text_dec (TInt I64) (wire_num (- 2 ^ 63)) = Ok (GInt (- 2 ^ 63)).
+Proof. vm_compute. repeat split; reflexivity. Qed.
